@@ -56,8 +56,9 @@ CLAIMED = {
          "Coq proof (invariant over all schedules) + trace replay from scheduled real tasks", "3/C06"),
  "C16": ("Theorems for ANY fault set over the Gallina image of the block-exit protocol (try/finally of __aexit__, Transaction.commit/rollback over all backends, "
          "LockTransactionBackend commit/rollback/_unlock_updates): the task always leaves the transaction; every lock a backend holds gets its own release command on "
-         "the rollback path of any number of backends and on a backend's commit path, and a lock key survives only if a release command itself failed. "
-         "fault_body_atomic and the multi-backend commit composition are NOT proved: they are covered only by the correspondence, which enumerates EVERY single fault "
+         "the rollback path of any number of backends, on a backend's commit path and through Transaction.commit over any number of backends (a failing commit rolls the "
+         "rest back), and a lock key survives only if a command of the exit phase itself failed. That the BODY keeps lock bookkeeping in step with the store and that a "
+         "body fault applies nothing are NOT proved: they are covered only by the correspondence, which enumerates EVERY single fault "
          "position (and pairs) of 36 program/mode combinations against the real code with raising wrappers.",
          "A fault = the command raises with no effect; single task; set iteration order of lock keys taken from the clean run; partial (see Properties/C16.v header).",
          "Coq proof (release protocol for arbitrary fault sets) + exhaustive single/pair fault enumeration against the real code", "3/C16"),
